@@ -8,6 +8,7 @@ from petl.comparison import Comparable
 from hypothesis import strategies as st
 
 from pv import gen, codec, catgen
+from pv import scale
 from pv.core import Sub, Fail, exc_fail
 from pv.order import ref_cmp, rank_class
 from pv.ref import base as R
@@ -70,7 +71,19 @@ def _scalar(v):
     return not isinstance(v, (list, tuple))
 
 
+def _nest(v, depth):
+    for d in range(depth):
+        v = (v,) if d % 2 else [v]
+    return v
+
+
 def check_triple(case, ctx):
+    nb = scale.derive(list(case), odds=12, sizes=[17, 20, 33, 60], wide=False)
+    if nb:
+        # depth instead of length: the three values wrapped in 17 .. 60 levels of one-element lists / tuples - sequences are
+        # compared element-wise at every depth
+        case = [_nest(v, nb["rows"]) for v in case]
+        ctx.label("deeply-nested")
     a, b, c = case
     ctx.nontrivial(_nontrivial(case))
     ctx.label(*sorted(set("class:" + rank_class(v) for v in case)))
@@ -228,8 +241,15 @@ def check_consumer(case, ctx):
         key, reverse = case["key"], case["reverse"]
         idx = list(range(len(hdr))) if key is None else R.resolve(hdr, key)
         ctx.nontrivial(len(tbl) > 2 and _nontrivial(cells))
+        skw = {}
+        bb = scale.derive(case, odds=15, sizes=[300, 700, 1500], wide=False)
+        if bb and len(tbl) > 1:
+            # at scale: hundreds of rows sorted through a hundred or more chunk files
+            tbl = scale.apply(tbl, bb)
+            skw = {"buffersize": (2, 7, 3, 1000)[bb["rows"] % 4] if bb["rows"] < 1000 else (7, 1000, 5, 700)[len(tbl[1]) % 4], "tempdir": ctx.tmpdir()}
+            scale.label(ctx, bb)
         try:
-            got = [tuple(r) for r in etl.sort(catgen.shape(codec.snapshot(tbl), case.get("form", "lists")), key, reverse=reverse)]
+            got = [tuple(r) for r in etl.sort(catgen.shape(codec.snapshot(tbl), case.get("form", "lists")), key, reverse=reverse, **skw)]
         except Exception as ex:
             return exc_fail("sort", ex)
         keys = [R.keyof(r, idx) for r in got[1:]]
